@@ -233,13 +233,20 @@ func (p *Policy) Assemble() ([]bpf.Instruction, error) {
 			group.arch = p.arch
 		}
 
-		groupInsts, err := group.Assemble(p.DefaultAction)
+		// Groups are evaluated in order: when no syscall of a group matches,
+		// the filter continues with the next group.
+		groupInsts, err := group.assemble(p.DefaultAction, true)
 		if err != nil {
 			return nil, err
 		}
 
 		instructions = append(instructions, groupInsts...)
 	}
+
+	// No group matched: return the default action.
+	end := NewProgram()
+	end.Ret(p.DefaultAction)
+	instructions = append(instructions, end.instructions...)
 
 	// Filter out x32 to prevent bypassing blacklists by using the 32-bit ABI.
 	var x32Filter []bpf.Instruction
@@ -255,7 +262,7 @@ func (p *Policy) Assemble() ([]bpf.Instruction, error) {
 	program = append(program, bpf.LoadAbsolute{Off: archOffset, Size: sizeOfUint32})
 
 	// If the loaded arch ID is not equal p.arch.ID, jump to the final Ret instruction.
-	jumpN := len(x32Filter) + len(instructions) - 1
+	jumpN := len(x32Filter) + len(instructions)
 	if jumpN <= 255 {
 		program = append(program, bpf.JumpIf{Cond: bpf.JumpNotEqual, Val: uint32(p.arch.ID), SkipTrue: uint8(jumpN)})
 	} else {
@@ -360,6 +367,13 @@ func (g *SyscallGroup) toSyscallsWithConditions() ([]SyscallWithConditions, erro
 }
 
 func (g *SyscallGroup) Assemble(defaultAction Action) ([]bpf.Instruction, error) {
+	return g.assemble(defaultAction, false)
+}
+
+// assemble assembles the group. If none of its syscalls matches, the
+// instructions return defaultAction or, with fallThrough, continue with the
+// instruction that follows them.
+func (g *SyscallGroup) assemble(defaultAction Action, fallThrough bool) ([]bpf.Instruction, error) {
 	if len(g.Names) == 0 && len(g.NamesWithCondtions) == 0 {
 		return nil, nil
 	}
@@ -375,6 +389,16 @@ func (g *SyscallGroup) Assemble(defaultAction Action) ([]bpf.Instruction, error)
 	action := p.NewLabel()
 	for _, syscall := range syscalls {
 		syscall.Assemble(&p, action)
+	}
+
+	if fallThrough {
+		// Jump over the return of the group's action.
+		next := p.NewLabel()
+		p.JmpIf(bpf.JumpEqual, 0, next, next)
+		p.SetLabel(action)
+		p.Ret(g.Action)
+		p.SetLabel(next)
+		return p.Assemble()
 	}
 
 	p.Ret(defaultAction)
